@@ -9,7 +9,13 @@
 (*          (%v / err.Error(): the cause is lost; Shape = "pinned")        *)
 (* Stages: size and tokens (limits), lex, parse, depth (nesting limit),    *)
 (* empty (the input holds no statement: empty, blank, semicolons or a      *)
-(* comment only), cancel (the context's error is the root).                *)
+(* comment only), cancel (the context's error is the root), nested (a      *)
+(* grammar problem inside a construct whose own parser reports "error      *)
+(* parsing <construct>" WITH the inner diagnostic as its cause: the root   *)
+(* is then a chain of two structured errors).                              *)
+(*   layer  "rebuild" (Shape = "rebuilt"): a frame copies code, message    *)
+(*          and location of the first structured error into a new error    *)
+(*          and returns that - what was under it is cut off                *)
 (* Between the two runs of a call ANOTHER call happens - any entry point,  *)
 (* failing in any stage or succeeding.  Shape = "shared-root": the error   *)
 (* of the empty stage is one shared object into which position-tracking   *)
@@ -21,6 +27,8 @@
 (*                  context's error                                        *)
 (*   FamilyOfStage  its code belongs to the family of the failing stage    *)
 (*   Reproducible   a second run on the same input returns an equal value  *)
+(*   CausesKept     every structured error of the root's chain is still    *)
+(*                  reachable from the value the entry point returns       *)
 (* Every (entry point, stage) pair is printed with the expected family;    *)
 (* the driver concretises the stage by inputs of that class and checks the *)
 (* real error values.                                                      *)
@@ -29,7 +37,7 @@ EXTENDS Integers, Sequences, FiniteSets, TLC, Json
 
 CONSTANTS Shape, Emit
 
-Stages == {"size", "tokens", "lex", "parse", "depth", "empty", "cancel"}
+Stages == {"size", "tokens", "lex", "parse", "depth", "empty", "cancel", "nested"}
 \* what the call between the two runs does: fails in a stage (the limit stages are left to the first call) or succeeds
 BetweenStages == (Stages \ {"size", "tokens"}) \cup {"accept"}
 EntryPoints == {"Tokenizer.Tokenize", "gosqlx.Parse", "gosqlx.ParseBytes", "gosqlx.ParseWithContext", "gosqlx.ParseWithTimeout",
@@ -39,11 +47,12 @@ EntryPoints == {"Tokenizer.Tokenize", "gosqlx.Parse", "gosqlx.ParseBytes", "gosq
 \* which stages an entry point can fail in
 CanFail(ep, st) == /\ (st = "cancel" => ep \in {"gosqlx.ParseWithContext", "gosqlx.ParseWithTimeout", "Parser.ParseContext"})
                    /\ (ep = "Tokenizer.Tokenize" => st \in {"size", "tokens", "lex"})
-                   /\ (ep \in {"Parser.Parse", "Parser.ParseContext", "Parser.ParseWithPositions"} => st \in {"parse", "depth", "empty", "cancel"})
-Family(st) == CASE st \in {"size", "tokens"} -> "limit" [] st = "lex" -> "tokenizer" [] st \in {"parse", "depth", "empty"} -> "parser" [] OTHER -> "context"
+                   /\ (ep \in {"Parser.Parse", "Parser.ParseContext", "Parser.ParseWithPositions"} => st \in {"parse", "depth", "empty", "cancel", "nested"})
+Family(st) == CASE st \in {"size", "tokens"} -> "limit" [] st = "lex" -> "tokenizer" [] st \in {"parse", "depth", "empty", "nested"} -> "parser" [] OTHER -> "context"
 Tracking == {"Parser.ParseWithPositions"}      \* entry points that put their own position into the errors they return
 
-NoRoot == [structured |-> FALSE, family |-> "none", loc |-> "none"]
+NoRoot == [structured |-> FALSE, family |-> "none", loc |-> "none", chain |-> 0]
+ChainOf(st) == IF st = "nested" THEN 2 ELSE 1      \* structured errors in the chain the failing stage builds
 VARIABLES ep, stage, run, root, layers, first,
           between,      \* the call made between the two runs: <<entry point, stage>>
           sentinel      \* shape "shared-root": who last wrote a location into the shared error of the empty stage
@@ -58,11 +67,12 @@ Writes(e, st) == Shape = "shared-root" /\ st = "empty" /\ e \in Tracking
 LocOf(e, st) == IF Shape = "shared-root" /\ st = "empty" THEN (IF e \in Tracking THEN e ELSE sentinel) ELSE "own"
 Fail == /\ root = NoRoot
         /\ \E structured \in (IF Shape = "pinned" THEN BOOLEAN ELSE {TRUE}) :
-              root' = [structured |-> (structured /\ stage # "cancel"), family |-> Family(stage), loc |-> LocOf(ep, stage)]
+              root' = [structured |-> (structured /\ stage # "cancel"), family |-> Family(stage), loc |-> LocOf(ep, stage),
+                       chain |-> IF stage = "cancel" THEN 0 ELSE ChainOf(stage)]
         /\ sentinel' = IF Writes(ep, stage) THEN ep ELSE sentinel
         /\ UNCHANGED <<ep, stage, run, layers, first, between>>
 Return == /\ root # NoRoot /\ Len(layers) < 3
-          /\ \E k \in (IF Shape = "pinned" THEN {"wrap", "flat"} ELSE {"wrap"}) : layers' = Append(layers, k)
+          /\ \E k \in (CASE Shape = "pinned" -> {"wrap", "flat"} [] Shape = "rebuilt" -> {"wrap", "rebuild"} [] OTHER -> {"wrap"}) : layers' = Append(layers, k)
           /\ UNCHANGED <<ep, stage, run, root, first, between, sentinel>>
 Value == [root |-> root, layers |-> layers]
 \* the call returns; another call happens; a second run on the same input starts
@@ -83,4 +93,8 @@ Reachable == (root # NoRoot) => /\ ~Lost
 FamilyOfStage == (root # NoRoot) => root.family = Family(stage)
 \* the number of layers is the entry point's business; the root and its reachability are the input's
 Reproducible == (run = 2 /\ root # NoRoot) => (root = first.root)
+\* structured errors reachable from the returned value: none through a flat layer, only the copied top one through a rebuild
+Rebuilt == \E k \in 1..Len(layers) : layers[k] = "rebuild"
+ReachableChain == IF Lost THEN 0 ELSE IF Rebuilt THEN (IF root.chain > 0 THEN 1 ELSE 0) ELSE root.chain
+CausesKept == (root # NoRoot /\ ~Lost) => ReachableChain = root.chain
 =============================================================================
